@@ -508,3 +508,169 @@ def stopping_differential(kwargs, n, seed=0):
     elif obs["source_flags_up"] != flags_model or obs["tracked"] != st["tracked.len"] or len(obs["dispatches"]) != st["g.dispatched"]:
       bad.append({"schedule": k, "why": "model flags %s tracked %s dispatched %s; real %s" % (flags_model, st["tracked.len"], st["g.dispatched"], obs)})
   return {"schedules": n, "visible_operations": ops, "disagreements": bad}
+
+
+# ---- registry scenario (C25 threads) ----------------------------------------------------------------------------------------
+class RealRegistry:
+  def __init__(self, sc, sysm):
+    import collections
+    from vf import core
+    import miros.event as ev
+    vis, _, _ = R.visibility_from(sysm)
+    self.d = d = R.Director(vis)
+    self.ev = ev
+    name = "signals"
+    base = ev.SignalSource
+
+    class ValuesView:
+      def __init__(self, reg):
+        self.reg = reg
+
+      def __contains__(self, x):
+        d.before(name, "values_contains")
+        return x in collections.OrderedDict.values(self.reg)
+
+      def __iter__(self):
+        d.before(name, "snapshot_values")
+        return iter(list(collections.OrderedDict.values(self.reg)))
+
+    class ItemsView:
+      def __init__(self, reg):
+        self.reg = reg
+
+      def __iter__(self):
+        # a for statement asks for the iterator with GET_ITER and then advances it one bytecode at a time (other threads can run in
+        # between); list(view) consumes it inside one C call (an atomic snapshot)
+        import dis
+        import sys
+        fr = sys._getframe(1)
+        stepwise = dis.opname[fr.f_code.co_code[fr.f_lasti]] == "GET_ITER"
+        if not stepwise:
+          d.before(name, "snapshot_items")
+          return iter(list(collections.OrderedDict.items(self.reg)))
+        return self.steps()
+
+      def steps(self):
+        d.before(name, "iter")
+        it = iter(collections.OrderedDict.items(self.reg))
+        while True:
+          d.before(name, "next")
+          try:
+            yield next(it)
+          except StopIteration:
+            return
+
+      def __len__(self):               # list(items()) asks for a length hint, then iterates in C: one atomic snapshot
+        return collections.OrderedDict.__len__(self.reg)
+
+    class Proxy(base):
+      def __contains__(self, k):
+        d.before(name, "contains")
+        return collections.OrderedDict.__contains__(self, k)
+
+      def __setitem__(self, k, v):
+        d.before(name, "setitem")
+        return collections.OrderedDict.__setitem__(self, k, v)
+
+      def __getitem__(self, k):
+        d.before(name, "getitem")
+        return collections.OrderedDict.__getitem__(self, k)
+
+      def __len__(self):
+        d.before(name, "__len__")
+        return collections.OrderedDict.__len__(self)
+
+      def values(self):
+        return ValuesView(self)
+
+      def items(self):
+        return ItemsView(self)
+    reg = Proxy.__new__(Proxy)
+    collections.OrderedDict.__init__(reg)
+    collections.OrderedDict.__setitem__(reg, "ENTRY_SIGNAL", 1)
+    collections.OrderedDict.__setitem__(reg, "EXIT_SIGNAL", 2)
+    reg.__dict__["highest_inner_signal"] = 2
+    self.reg = reg
+    self.saved = (ev.signals, ev.Signal.instance)
+    ev.signals = reg
+    ev.Signal.instance = reg
+    self.locks = []
+    import importlib
+    for (modname, gname, mname) in sc.global_locks:
+      mod = importlib.import_module(modname)
+      self.locks.append((mod, gname, getattr(mod, gname)))
+      setattr(mod, gname, R.LockProxy(d, mname))
+    self.results, self.errors = {}, {}
+    self.bodies = {t: self.body(t, kind, arg) for t, (kind, arg) in enumerate(sc.info["ops"])}
+
+  def body(self, t, kind, arg):
+    def run():
+      try:
+        if kind == "append":
+          self.reg.append(arg)
+          self.results[t] = self.reg[arg]
+        else:
+          e = self.ev.Event(signal=arg)
+          self.results[t] = (e.signal_name, e.signal)
+      except BaseException as ex:     # noqa: the failure is the observation
+        self.errors[t] = "%s: %s" % (type(ex).__name__, ex)
+    return run
+
+  def restore(self):
+    self.ev.signals, self.ev.Signal.instance = self.saved
+    for (mod, gname, real) in self.locks:
+      setattr(mod, gname, real)
+
+  def observe(self):
+    import collections
+    return {"registry": list(collections.OrderedDict.items(self.reg)), "results": {str(k): v for k, v in self.results.items()},
+            "errors": {str(k): v for k, v in self.errors.items()}, "finished": sorted(self.d.finished)}
+
+
+def registry_replay(sc, sysm, res, states, infos, loop):
+  real = RealRegistry(sc, sysm)
+  try:
+    ok, detail, threads = R.run_threads(real.d, real.bodies, triples(infos))
+    time.sleep(0.03)
+    obs = real.observe()
+    real.d.release_all()
+    for t in threads.values():
+      t.join(timeout=0.5)
+  finally:
+    real.restore()
+  return {"matched": ok, "detail": detail, "real": obs}
+
+
+def registry_differential(ops, n, seed=0):
+  from vf.e2.check import build
+  rnd = random.Random(seed)
+  bad = []
+  nops = 0
+  for k in range(n):
+    sc, sysm = build("registry", dict(ops=ops))
+    st = sysm.initial()
+    infos = []
+    for _ in range(80):
+      en = sysm.enabled_concrete(st)
+      if not en:
+        break
+      st, info = sysm.step_concrete(st, rnd.choice(en))
+      infos.append(info)
+    real = RealRegistry(sc, sysm)
+    try:
+      ok, detail, threads = R.run_threads(real.d, real.bodies, triples(infos))
+      time.sleep(0.01)
+      obs = real.observe()
+      real.d.release_all()
+      for t in threads.values():
+        t.join(timeout=0.5)
+    finally:
+      real.restore()
+    nops += len(triples(infos))
+    codes = {v: k for k, v in sc.info["codes"].items()}
+    model_reg = [(codes.get(st["signals.k%d" % i], st["signals.k%d" % i]), st["signals.v%d" % i]) for i in range(st["signals.size"])]
+    if not ok:
+      bad.append({"schedule": k, "why": detail})
+    elif model_reg != obs["registry"]:
+      bad.append({"schedule": k, "why": "model registry %s, real %s" % (model_reg, obs["registry"])})
+  return {"schedules": n, "visible_operations": nops, "disagreements": bad}
